@@ -64,7 +64,7 @@ def gen_cases(ctx):
             ({"fixed": [1, 2, 5]}, {"fixed": [0, 3, 4, 6]}, "plane"),
             ({"start_after_periods": 0.5, "on_for_periods": 1.25, "period": 2}, {"end_time": 4.5, "interval": 3}, "dipole"),
             ({"interval": 2}, {"off": True}, "plane")]
-    for ssw, dsw, kind in runs[:ctx.pick(1, 4)]:
+    for ssw, dsw, kind in (runs if not ctx.quick else [runs[0], runs[3]]):      # quick: a windowed pair and the always-off detector
         src = ({"kind": "dipole", "cell": [3, 3, 4], "pol": 2, "switch": ssw} if kind == "dipole" else
                {"kind": "plane", "axis": 2, "pos": 4, "dir": "+", "pol": [1.0, 0.5, 0.0], "switch": ssw})
         spec = {"shape": [6, 6, 8], "spacing": 5e-8, "steps": 7, "thickness": 2,
